@@ -17,12 +17,12 @@ From YQ Require Import Base.Str Model.History Model.HistoryInst Proofs.HistoryPr
    (parse, decode with leading-content pre-processing, evaluate under the
    request's preferences): no hidden input. *)
 Theorem C18_function_of_inputs :
-  forall (C Pf D DOCS V M : Type) (parse_core : N -> C) (env_toks : N -> list etok)
-         (dec_sem : fmt -> bool -> D -> DOCS) (dec_eof : DOCS) (sem : C -> Pf -> DOCS -> V)
+  forall (C Pf D DOCS V M : Type) (parse_core : N -> C) (parse_fails : N -> bool) (parse_err : N -> V) (parse_msg : N -> M) (env_toks : N -> list etok)
+         (dec_sem : fmt -> bool -> D -> DOCS) (dec_eof : DOCS) (dec_fails : fmt -> D -> bool) (sem : C -> Pf -> DOCS -> V)
          (msg : C -> Pf -> DOCS -> list str -> str -> M) (default_prefs : Pf) fixinit x,
   q_reuse_dec x = false \/ True ->
-  fst (last_out parse_core env_toks dec_sem dec_eof sem msg default_prefs fixinit [] x)
-  = spec_value parse_core dec_sem sem default_prefs x.
+  fst (last_out parse_core parse_fails parse_err parse_msg env_toks dec_sem dec_eof dec_fails sem msg default_prefs fixinit [] x)
+  = spec_value parse_core parse_fails parse_err dec_sem sem default_prefs x.
 Proof. exact fresh_is_spec. Qed.
 Print Assumptions C18_function_of_inputs.
 
@@ -32,12 +32,12 @@ Print Assumptions C18_function_of_inputs.
    reads: every format but TOML and Lua, and YAML only without
    EvaluateTogether.  (The excluded cases are refuted below.) *)
 Theorem C18_history_independent :
-  forall (C Pf D DOCS V M : Type) (parse_core : N -> C) (env_toks : N -> list etok)
-         (dec_sem : fmt -> bool -> D -> DOCS) (dec_eof : DOCS) (sem : C -> Pf -> DOCS -> V)
+  forall (C Pf D DOCS V M : Type) (parse_core : N -> C) (parse_fails : N -> bool) (parse_err : N -> V) (parse_msg : N -> M) (env_toks : N -> list etok)
+         (dec_sem : fmt -> bool -> D -> DOCS) (dec_eof : DOCS) (dec_fails : fmt -> D -> bool) (sem : C -> Pf -> DOCS -> V)
          (msg : C -> Pf -> DOCS -> list str -> str -> M) (default_prefs : Pf) fixinit h1 h2 x,
   ok_req Pf D fixinit x ->
-  fst (last_out parse_core env_toks dec_sem dec_eof sem msg default_prefs fixinit h1 x)
-  = fst (last_out parse_core env_toks dec_sem dec_eof sem msg default_prefs fixinit h2 x).
+  fst (last_out parse_core parse_fails parse_err parse_msg env_toks dec_sem dec_eof dec_fails sem msg default_prefs fixinit h1 x)
+  = fst (last_out parse_core parse_fails parse_err parse_msg env_toks dec_sem dec_eof dec_fails sem msg default_prefs fixinit h2 x).
 Proof. exact history_independent. Qed.
 Print Assumptions C18_history_independent.
 
@@ -51,9 +51,9 @@ Proof. exact init_resets_read_anything. Qed.
 Print Assumptions C18_init_resets_read_anything.
 
 Theorem C18_first_file_read_only_by_yaml_together :
-  forall (D DOCS : Type) (dec_sem : fmt -> bool -> D -> DOCS) (dec_eof : DOCS) fixinit f together d1 d2 text,
+  forall (D DOCS : Type) (dec_sem : fmt -> bool -> D -> DOCS) (dec_eof : DOCS) (dec_fails : fmt -> D -> bool) fixinit f together d1 d2 text,
   d_finished d1 = d_finished d2 -> (f = FYaml -> together = false) ->
-  snd (decode_run dec_sem dec_eof fixinit f together d1 text) = snd (decode_run dec_sem dec_eof fixinit f together d2 text).
+  snd (decode_run dec_sem dec_eof dec_fails fixinit f together d1 text) = snd (decode_run dec_sem dec_eof dec_fails fixinit f together d2 text).
 Proof. exact first_file_read_only_by_yaml_together. Qed.
 Print Assumptions C18_first_file_read_only_by_yaml_together.
 
@@ -62,23 +62,23 @@ Print Assumptions C18_first_file_read_only_by_yaml_together.
    read by the value part: two global states that differ only there give the
    same value. *)
 Theorem C18_unread_fields :
-  forall (C Pf D DOCS V M : Type) (parse_core : N -> C) (env_toks : N -> list etok)
-         (dec_sem : fmt -> bool -> D -> DOCS) (dec_eof : DOCS) (sem : C -> Pf -> DOCS -> V)
+  forall (C Pf D DOCS V M : Type) (parse_core : N -> C) (parse_fails : N -> bool) (parse_err : N -> V) (parse_msg : N -> M) (env_toks : N -> list etok)
+         (dec_sem : fmt -> bool -> D -> DOCS) (dec_eof : DOCS) (dec_fails : fmt -> D -> bool) (sem : C -> Pf -> DOCS -> V)
          (msg : C -> Pf -> DOCS -> list str -> str -> M) fixinit (g1 g2 : G C Pf) x,
-  Inv C Pf parse_core g1 -> Inv C Pf parse_core g2 -> same_but_unread C Pf g1 g2 ->
-  fst (snd (step parse_core env_toks dec_sem dec_eof sem msg fixinit g1 x))
-  = fst (snd (step parse_core env_toks dec_sem dec_eof sem msg fixinit g2 x)).
+  Inv C Pf parse_core parse_fails g1 -> Inv C Pf parse_core parse_fails g2 -> same_but_unread C Pf g1 g2 ->
+  fst (snd (step parse_core parse_fails parse_err parse_msg env_toks dec_sem dec_eof dec_fails sem msg fixinit g1 x))
+  = fst (snd (step parse_core parse_fails parse_err parse_msg env_toks dec_sem dec_eof dec_fails sem msg fixinit g2 x)).
 Proof. exact unread_fields. Qed.
 Print Assumptions C18_unread_fields.
 
 (* evaluating on a parsed tree kept from earlier = evaluating on a fresh parse *)
 Theorem C18_reuse_tree :
-  forall (C Pf D DOCS V M : Type) (parse_core : N -> C) (env_toks : N -> list etok)
-         (dec_sem : fmt -> bool -> D -> DOCS) (dec_eof : DOCS) (sem : C -> Pf -> DOCS -> V)
+  forall (C Pf D DOCS V M : Type) (parse_core : N -> C) (parse_fails : N -> bool) (parse_err : N -> V) (parse_msg : N -> M) (env_toks : N -> list etok)
+         (dec_sem : fmt -> bool -> D -> DOCS) (dec_eof : DOCS) (dec_fails : fmt -> D -> bool) (sem : C -> Pf -> DOCS -> V)
          (msg : C -> Pf -> DOCS -> list str -> str -> M) fixinit (g : G C Pf) x,
-  Inv C Pf parse_core g ->
-  fst (snd (step parse_core env_toks dec_sem dec_eof sem msg fixinit g (with_reuse Pf D true x)))
-  = fst (snd (step parse_core env_toks dec_sem dec_eof sem msg fixinit g (with_reuse Pf D false x))).
+  Inv C Pf parse_core parse_fails g ->
+  fst (snd (step parse_core parse_fails parse_err parse_msg env_toks dec_sem dec_eof dec_fails sem msg fixinit g (with_reuse Pf D true x)))
+  = fst (snd (step parse_core parse_fails parse_err parse_msg env_toks dec_sem dec_eof dec_fails sem msg fixinit g (with_reuse Pf D false x))).
 Proof. exact reuse_tree. Qed.
 Print Assumptions C18_reuse_tree.
 
@@ -104,20 +104,20 @@ Definition rq (e : N) (f : fmt) (text : N) (together reuse_dec : bool) : request
 
 (* A re-used TOML (or Lua) decoder yields nothing the second time: Init does not clear `finished`. *)
 Theorem C18_toml_decoder_reuse_refuted :
-  fst (last_out (fun e : N => e) (toks_of []) i_dec_sem [] i_sem i_msg 0 false [rq 1 FToml 7 false true] (rq 1 FToml 8 false true))
+  fst (last_out (fun e : N => e) (fun _ => false) i_perr i_pmsg (toks_of []) i_dec_sem [] (fun _ _ => false) i_sem i_msg 0 false [rq 1 FToml 7 false true] (rq 1 FToml 8 false true))
     = [1; 0]
-  /\ fst (last_out (fun e : N => e) (toks_of []) i_dec_sem [] i_sem i_msg 0 false [] (rq 1 FToml 8 false true))
+  /\ fst (last_out (fun e : N => e) (fun _ => false) i_perr i_pmsg (toks_of []) i_dec_sem [] (fun _ _ => false) i_sem i_msg 0 false [] (rq 1 FToml 8 false true))
     = [1; 0; 7; 1; 8]
-  /\ fst (last_out (fun e : N => e) (toks_of []) i_dec_sem [] i_sem i_msg 0 true [rq 1 FToml 7 false true] (rq 1 FToml 8 false true))
+  /\ fst (last_out (fun e : N => e) (fun _ => false) i_perr i_pmsg (toks_of []) i_dec_sem [] (fun _ _ => false) i_sem i_msg 0 true [rq 1 FToml 7 false true] (rq 1 FToml 8 false true))
     = [1; 0; 7; 1; 8].
 Proof. repeat split; vm_compute; reflexivity. Qed.
 Print Assumptions C18_toml_decoder_reuse_refuted.
 
 (* A re-used YAML decoder with EvaluateTogether no longer pre-processes leading content (firstFile stays false). *)
 Theorem C18_yaml_together_reuse_refuted :
-  fst (last_out (fun e : N => e) (toks_of []) i_dec_sem [] i_sem i_msg 0 false [rq 1 FYaml 7 true true] (rq 1 FYaml 8 true true))
+  fst (last_out (fun e : N => e) (fun _ => false) i_perr i_pmsg (toks_of []) i_dec_sem [] (fun _ _ => false) i_sem i_msg 0 false [rq 1 FYaml 7 true true] (rq 1 FYaml 8 true true))
     = [1; 0; 0; 0; 8]
-  /\ fst (last_out (fun e : N => e) (toks_of []) i_dec_sem [] i_sem i_msg 0 false [] (rq 1 FYaml 8 true true))
+  /\ fst (last_out (fun e : N => e) (fun _ => false) i_perr i_pmsg (toks_of []) i_dec_sem [] (fun _ _ => false) i_sem i_msg 0 false [] (rq 1 FYaml 8 true true))
     = [1; 0; 0; 1; 8].
 Proof. repeat split; vm_compute; reflexivity. Qed.
 Print Assumptions C18_yaml_together_reuse_refuted.
@@ -126,9 +126,9 @@ Print Assumptions C18_yaml_together_reuse_refuted.
    OperationType.Type of an envsubst node shows what the LAST lexed
    envsubst(...) left in the global. *)
 Theorem C18_message_history_refuted :
-  snd (last_out (fun e : N => e) (toks_of [(2, [TokOpt [sfx_ne]])]) i_dec_sem [] i_sem i_msg 0 false [rq 2 FYaml 7 false false] (rq 1 FYaml 7 false false))
+  snd (last_out (fun e : N => e) (fun _ => false) i_perr i_pmsg (toks_of [(2, [TokOpt [sfx_ne]])]) i_dec_sem [] (fun _ _ => false) i_sem i_msg 0 false [rq 2 FYaml 7 false false] (rq 1 FYaml 7 false false))
     = c_envsubst ++ sfx_ne
-  /\ snd (last_out (fun e : N => e) (toks_of [(2, [TokOpt [sfx_ne]])]) i_dec_sem [] i_sem i_msg 0 false [] (rq 1 FYaml 7 false false))
+  /\ snd (last_out (fun e : N => e) (fun _ => false) i_perr i_pmsg (toks_of [(2, [TokOpt [sfx_ne]])]) i_dec_sem [] (fun _ _ => false) i_sem i_msg 0 false [] (rq 1 FYaml 7 false false))
     = c_envsubst.
 Proof. repeat split; vm_compute; reflexivity. Qed.
 Print Assumptions C18_message_history_refuted.
@@ -158,8 +158,8 @@ Print Assumptions C18_interleave_type_copy_refuted.
 Example C18_example :
   let x := mkReq 1 true FJson 8 false true (Some 3) [] in
   ok_req N N false x
-  /\ fst (last_out (fun e : N => e) (toks_of []) i_dec_sem [] i_sem i_msg 0 false [rq 1 FToml 7 false true; x; rq 2 FJson 9 false true] x)
-     = spec_value (fun e : N => e) i_dec_sem i_sem 0 x.
+  /\ fst (last_out (fun e : N => e) (fun _ => false) i_perr i_pmsg (toks_of []) i_dec_sem [] (fun _ _ => false) i_sem i_msg 0 false [rq 1 FToml 7 false true; x; rq 2 FJson 9 false true] x)
+     = spec_value (fun e : N => e) (fun _ => false) i_perr i_dec_sem i_sem 0 x.
 Proof.
   cbv zeta. split.
   - split; [discriminate|]. right. split; [right; split; discriminate|discriminate].
